@@ -24,6 +24,10 @@ type Thread struct {
 	desc    string
 	quiesce bool
 	done    bool
+	// timeoutOK: the pending operation may also complete by a timer firing; the scheduler fires it only when
+	// nothing else can run while a non-daemon thread is unfinished ("eventually the timeout comes").
+	timeoutOK bool
+	timedOut  bool
 	Panic   any
 	Stack   string
 }
@@ -83,6 +87,16 @@ type Sched struct {
 	clock    int64
 	closed   map[any]bool
 	keep     []any
+	// unbuffered channels are modelled: a value in flight per channel and the number of parked receivers
+	hand     map[any]*handoff
+	recvWait map[any]int
+	timers   map[any]bool // channels made by After: never ready, complete only by timeout
+	timeouts int
+}
+
+type handoff struct {
+	v    any
+	full bool
 }
 
 var active atomic.Pointer[Sched]
@@ -113,7 +127,7 @@ func Run(chooser Chooser, maxSteps int, traceOn bool, main func()) *Result {
 	if maxSteps <= 0 {
 		maxSteps = 200000
 	}
-	s := &Sched{chooser: chooser, finished: make(chan struct{}, 1), abortAck: make(chan struct{}), maxSteps: maxSteps, TraceOn: traceOn, closed: map[any]bool{}}
+	s := &Sched{chooser: chooser, finished: make(chan struct{}, 1), abortAck: make(chan struct{}), maxSteps: maxSteps, TraceOn: traceOn, closed: map[any]bool{}, hand: map[any]*handoff{}, recvWait: map[any]int{}, timers: map[any]bool{}}
 	for i := 0; freeAlive.Load() > 0 && i < 2000; i++ {
 		time.Sleep(time.Millisecond) // goroutines of a WAL that was just closed are on their way out
 	}
@@ -202,7 +216,7 @@ func (s *Sched) enabledOf(t *Thread) bool {
 		s.inQuiesceEval = false
 		return ok
 	}
-	return t.pred == nil || t.pred()
+	return t.pred == nil || t.timedOut || t.pred()
 }
 
 // next picks the thread to run after `from` reached a point (or finished).
@@ -219,6 +233,29 @@ func (s *Sched) next(from *Thread, fromDone bool) {
 		}
 		if s.enabledOf(t) {
 			enabled = append(enabled, t.ID)
+		}
+	}
+	if len(enabled) == 0 && s.timeouts < 64 {
+		// nothing can run: if a harness thread still has work to do, the lowest-numbered thread waiting with
+		// a timeout gets it
+		need := false
+		for _, t := range s.threads {
+			if !t.done && !t.Daemon && !(t.quiesce && t == from) {
+				need = true
+			}
+		}
+		if need {
+			for _, t := range s.threads {
+				if !t.done && t.timeoutOK && !t.timedOut && !(t == from && fromDone) {
+					t.timedOut = true
+					s.timeouts++
+					enabled = append(enabled, t.ID)
+					if t == from {
+						curEnabled = true
+					}
+					break
+				}
+			}
 		}
 	}
 	if len(enabled) == 0 {
@@ -367,14 +404,45 @@ func Send[C ~chan T | ~chan<- T, T any](c C, v T) {
 		return
 	}
 	k := toBidirKey(c)
+	if chCap(c) == 0 {
+		// rendezvous: wait for a parked receiver, hand the value over, wait until it was taken
+		s.Point(func() bool { return s.closed[k] || (s.recvWait[k] > 0 && !s.slot(k).full) }, "send (unbuffered)")
+		if s.closed[k] {
+			panic("send on closed channel")
+		}
+		h := s.slot(k)
+		h.v, h.full = v, true
+		s.Point(func() bool { return !h.full }, "send (unbuffered, handing over)")
+		return
+	}
 	s.Point(func() bool { return s.closed[k] || chLen(c) < chCap(c) }, "send")
 	sendReal(c, v) // panics if closed, like the real thing
+}
+
+func (s *Sched) slot(k any) *handoff {
+	h := s.hand[k]
+	if h == nil {
+		h = &handoff{}
+		s.hand[k] = h
+	}
+	return h
 }
 
 func TrySend[C ~chan T | ~chan<- T, T any](c C, v T) bool {
 	s := Cur()
 	if s != nil && !s.aborting {
 		s.Point(nil, "trysend")
+		if chCap(c) == 0 {
+			k := toBidirKey(c)
+			if s.closed[k] {
+				panic("send on closed channel")
+			}
+			if h := s.slot(k); s.recvWait[k] > 0 && !h.full {
+				h.v, h.full = v, true
+				return true
+			}
+			return false
+		}
 	}
 	return trySendReal(c, v)
 }
@@ -390,6 +458,26 @@ func Recv2[C ~chan T | ~<-chan T, T any](c C) (T, bool) {
 		return recvReal[C, T](c)
 	}
 	k := toBidirKeyR(c)
+	if s.timers[k] {
+		t := s.cur
+		t.timeoutOK = true
+		s.Point(func() bool { return false }, "recv (timer)")
+		t.timeoutOK, t.timedOut = false, false
+		var zero T
+		return zero, true
+	}
+	if chCapR(c) == 0 {
+		s.recvWait[k]++
+		s.Point(func() bool { return s.closed[k] || s.slot(k).full }, "recv (unbuffered)")
+		s.recvWait[k]--
+		if h := s.slot(k); h.full {
+			v := h.v.(T)
+			h.v, h.full = nil, false
+			return v, true
+		}
+		var zero T
+		return zero, false
+	}
 	s.Point(func() bool { return s.closed[k] || chLenR(c) > 0 }, "recv")
 	return recvReal[C, T](c)
 }
@@ -398,6 +486,23 @@ func TryRecv[C ~chan T | ~<-chan T, T any](c C) (T, bool, bool) {
 	s := Cur()
 	if s != nil && !s.aborting {
 		s.Point(nil, "tryrecv")
+		k := toBidirKeyR(c)
+		if s.timers[k] {
+			var zero T
+			return zero, false, false
+		}
+		if chCapR(c) == 0 {
+			var zero T
+			if h := s.slot(k); h.full {
+				v := h.v.(T)
+				h.v, h.full = nil, false
+				return v, true, true
+			}
+			if s.closed[k] {
+				return zero, false, true
+			}
+			return zero, false, false
+		}
 	}
 	return tryRecvReal[C, T](c)
 }
